@@ -111,7 +111,11 @@ def sh(cmd, cwd=wt, timeout=3000, env=None):
     e = dict(os.environ, CARGO_TARGET_DIR=os.path.join(wt, "target"), CARGO_NET_OFFLINE="true")
     if env:
         e.update(env)
-    p = subprocess.run(cmd, shell=True, cwd=cwd, capture_output=True, text=True, env=e, timeout=timeout)
+    try:
+        p = subprocess.run(cmd, shell=True, cwd=cwd, capture_output=True, text=True, env=e, timeout=timeout, start_new_session=True)
+    except subprocess.TimeoutExpired:
+        subprocess.run("pkill -9 -f '%s/target/debug/deps' || true" % wt, shell=True)      # a mutant that makes the suite loop for ever
+        return 124, "error: timeout"
     return p.returncode, p.stdout + p.stderr
 
 
@@ -159,7 +163,7 @@ for f, c in allc:
         rec["status"] = "does-not-compile"
         open(outp, "a").write(json.dumps(rec) + "\n")
         continue
-    rc, o = sh("cargo test --workspace --offline 2>&1 | grep -E '^test result: FAILED|^error|panicked' | head -3", timeout=1800)
+    rc, o = sh("cargo test --workspace --offline 2>&1 | grep -E '^test result: FAILED|^error|panicked' | head -3", timeout=600)
     if o.strip():
         rec["status"] = "killed-by-existing-tests"
         open(outp, "a").write(json.dumps(rec) + "\n")
